@@ -265,6 +265,15 @@ func (p *Path) Calls(callee string) []*Event {
 		if e.Kind == "call" && e.Callee == callee {
 			out = append(out, e)
 		}
+		// c.writeError(code, err) is c.writeClose(code, err.Error()): the inlined spelling counts as the call
+		if callee == "Conn.writeError" && e.Kind == "call" && e.Callee == "Conn.writeClose" && len(e.Args) == 3 {
+			if x, ok := stripConvAll(e.Args[2]).(*Expr); ok && x.Op == "call" && strings.HasPrefix(x.Name, "invoke error.Error@") && len(x.Args) >= 1 {
+				ne := *e
+				ne.Callee = "Conn.writeError"
+				ne.Args = []AV{e.Args[0], e.Args[1], x.Args[0]}
+				out = append(out, &ne)
+			}
+		}
 	}
 	return out
 }
@@ -1618,6 +1627,17 @@ func (it *interp) doCall(st *state, fr *frame, in *ssa.Call) bool {
 		it.pushFrame(st, ev, in, false)
 		return true
 	}
+	if ev.Callee == "strings.Join" && len(ev.Args) == 2 {
+		if sep, ok := avStr(ev.Args[1]); ok {
+			if parts, ok := it.strList(st, ev.Args[0], 0); ok {
+				folded := cStr(strings.Join(parts, sep))
+				ev.Res = folded
+				st.events = append(st.events, ev)
+				fr.env[in] = folded
+				return true
+			}
+		}
+	}
 	if folded := foldPure(ev); folded != nil {
 		ev.Res = folded
 		st.events = append(st.events, ev)
@@ -1867,6 +1887,65 @@ func sortedKeys(m map[string]bool) []string {
 	}
 	sort.Strings(s)
 	return s
+}
+
+// strList resolves a []string value built on this path from constant strings: a slice over a local array whose
+// elements were stored constants (a composite literal or a variadic argument list), nil, and append(list, list...).
+func (it *interp) strList(st *state, a AV, depth int) ([]string, bool) {
+	if depth > 8 {
+		return nil, false
+	}
+	switch x := a.(type) {
+	case *Const:
+		if x.IsNil {
+			return nil, true
+		}
+	case *Expr:
+		switch {
+		case x.Op == "slice" && len(x.Args) == 4:
+			ad, ok := x.Args[0].(*Addr)
+			if !ok || !isLocalAllocKey(ad.K) {
+				return nil, false
+			}
+			limit := int64(-1)
+			if x.Args[2] != nil {
+				if limit, ok = avInt(x.Args[2]); !ok {
+					return nil, false
+				}
+			}
+			if x.Args[1] != nil {
+				if lo, ok := avInt(x.Args[1]); !ok || lo != 0 {
+					return nil, false
+				}
+			}
+			var out []string
+			for i := 0; limit < 0 || int64(i) < limit; i++ {
+				v, ok := st.mem[fmt.Sprintf("%s[%d]", ad.K, i)]
+				if !ok {
+					v, ok = st.mem[fmt.Sprintf("elem(%s)[%d]", x.Key(), i)]
+				}
+				if !ok {
+					if limit >= 0 {
+						return nil, false // an element of the literal is unknown
+					}
+					break
+				}
+				s, isS := avStr(v)
+				if !isS {
+					return nil, false
+				}
+				out = append(out, s)
+			}
+			return out, true
+		case x.Op == "call" && strings.HasPrefix(x.Name, "builtin append@") && len(x.Args) == 2:
+			l, ok1 := it.strList(st, x.Args[0], depth+1)
+			r, ok2 := it.strList(st, x.Args[1], depth+1)
+			if ok1 && ok2 {
+				return append(append([]string{}, l...), r...), true
+			}
+		}
+	}
+	return nil, false
 }
 
 // foldPure folds calls of a few pure standard-library string predicates on constant arguments.
